@@ -197,4 +197,409 @@ theorem inv_sRight_dbg (s s' : St α m n) (a b c d : α) (i j : Fin n) (hij : i 
 
 end prims2
 
+/-- lawfulness of the Euclidean-ring operations as far as the transform invariant needs it:
+`inv` returns an inverse -/
+structure LawfulE (e : EOps α) (φ : α → R) : Prop extends Lawful e.toROps φ where
+  inv_mul : ∀ u v, e.inv u = some v → φ u * φ v = 1
+
+theorem Res.bind_eq_ok {σ τ : Type} {x : Res σ} {g : σ → Res τ} {b : τ} (h : (x >>= g) = .ok b) :
+    ∃ y, x = .ok y ∧ g y = .ok b := by
+  cases x with
+  | ok y => exact ⟨y, rfl, h⟩
+  | panic => cases h
+  | err => cases h
+
+theorem foldl_inv {σ β : Type} (P : σ → Prop) (f : σ → β → σ) (hf : ∀ s x, P s → P (f s x)) :
+    ∀ (l : List β) (s : σ), P s → P (l.foldl f s)
+  | [], _, h => h
+  | x :: l, s, h => foldl_inv P f hf l (f s x) (hf s x h)
+
+theorem foldlM_inv {σ β : Type} (P : σ → Prop) (f : σ → β → Res σ)
+    (hf : ∀ s x s', f s x = .ok s' → P s → P s') :
+    ∀ (l : List β) (s s' : σ), l.foldlM f s = .ok s' → P s → P s'
+  | [], s, s', h, hp => by
+    simp only [List.foldlM_nil] at h
+    cases h; exact hp
+  | x :: l, s, s', h, hp => by
+    rw [List.foldlM_cons] at h
+    obtain ⟨y, hy, h⟩ := Res.bind_eq_ok h
+    exact foldlM_inv P f hf l y s' h (hf s x y hy hp)
+
+section flow
+variable {e : EOps α} {φ : α → R} (L : LawfulE e φ) {m n : Nat} {A : Mat α m n}
+include L
+
+theorem inv_sMulRow (s s' : St α m n) (i : Fin m) (u : α) (hs : sMulRow e s i u = .ok s') (h : Inv φ A s) :
+    Inv φ A s' := by
+  unfold sMulRow at hs
+  split at hs
+  · cases hs
+  · rename_i ui hui
+    injection hs with hs; subst hs
+    exact Inv.left _ _ (diag_unit_mul i (φ u) (φ ui) (L.inv_mul u ui hui))
+      (toM_mulRow L.toLawful _ i u) (toM_mulRow L.toLawful _ i u) (toM_mulCol L.toLawful _ i ui) rfl rfl h
+
+theorem inv_sMulCol (s s' : St α m n) (j : Fin n) (u : α) (hs : sMulCol e s j u = .ok s') (h : Inv φ A s) :
+    Inv φ A s' := by
+  unfold sMulCol at hs
+  split at hs
+  · cases hs
+  · rename_i ui hui
+    injection hs with hs; subst hs
+    exact Inv.right _ _ (diag_unit_mul j (φ u) (φ ui) (L.inv_mul u ui hui))
+      (toM_mulCol L.toLawful _ j u) (toM_mulCol L.toLawful _ j u) (toM_mulRow L.toLawful _ j ui) rfl rfl h
+
+/-! ### reference -/
+
+theorem inv_refReduceCol (s : St α m n) (ti : Fin m) (tj : Fin n) (h : Inv φ A s) :
+    Inv φ A (refReduceCol e s ti tj) := by
+  unfold refReduceCol
+  refine foldl_inv (Inv φ A) _ ?_ _ s h
+  intro s r hs
+  split
+  · rename_i hc
+    simp only [Bool.and_eq_true, bne_iff_ne, ne_eq, decide_eq_true_eq] at hc
+    refine inv_sLeftRaw L.toLawful s _ _ _ _ ti r (fun h => hc.1 h.symm) ?_ hs
+    simp [L.one, L.zero]
+  · exact hs
+
+theorem inv_refReduceRow (s : St α m n) (ti : Fin m) (tj : Fin n) (h : Inv φ A s) :
+    Inv φ A (refReduceRow e s ti tj) := by
+  unfold refReduceRow
+  refine foldl_inv (Inv φ A) _ ?_ _ s h
+  intro s c hs
+  split
+  · rename_i hc
+    simp only [Bool.and_eq_true, bne_iff_ne, ne_eq, decide_eq_true_eq] at hc
+    refine inv_sRightRaw L.toLawful s _ _ _ _ tj c (fun h => hc.1 h.symm) ?_ hs
+    simp [L.one, L.zero]
+  · exact hs
+
+
+theorem inv_refPrep (s : St α m n) (ti : Fin m) (tj : Fin n) (i : Fin m) (j : Fin n) (h : Inv φ A s) :
+    Inv φ A (refPrep e s ti tj i j) := by
+  unfold refPrep
+  refine inv_refReduceRow L _ ti tj (inv_refReduceCol L _ ti tj ?_)
+  have h1 : Inv φ A (if i = ti then s else sSwapRows s ti i) := by
+    split
+    · exact h
+    · rename_i hne; exact inv_sSwapRows s ti i (fun h' => hne h'.symm) h
+  split
+  · exact h1
+  · rename_i hne; exact inv_sSwapCols _ tj j (fun h' => hne h'.symm) h1
+
+theorem inv_refLoop : ∀ (fuel t : Nat) (s s' : St α m n), refLoop e fuel t s = .ok s' → Inv φ A s → Inv φ A s' := by
+  intro fuel
+  induction fuel with
+  | zero => intro t s s' hs; simp [refLoop] at hs
+  | succ fuel ih =>
+    intro t s s' hs h
+    rw [refLoop] at hs
+    split at hs
+    · rename_i hlt
+      split at hs
+      · cases hs; exact h
+      · rename_i i j _
+        have h1 := inv_refPrep L s ⟨t, hlt.1⟩ ⟨t, hlt.2⟩ i j h
+        generalize refPrep e s ⟨t, hlt.1⟩ ⟨t, hlt.2⟩ i j = s1 at hs h1
+        simp only at hs
+        split at hs
+        · split at hs
+          · rename_i i' _
+            split at hs
+            · cases hs
+            · rename_i hne
+              refine ih t _ s' hs (inv_sLeftRaw L.toLawful s1 _ _ _ _ _ i' (fun h' => hne h'.symm) ?_ h1)
+              simp [L.one, L.zero]
+          · split at hs
+            · exact ih _ _ s' hs h1
+            · split at hs
+              · rename_i s2 hs2
+                exact ih _ _ s' hs (inv_sMulRow L s1 s2 _ _ hs2 h1)
+              · rename_i hr
+                exact absurd hs (hr s')
+        · exact ih _ _ s' hs h1
+    · cases hs; exact h
+
+theorem inv_refSnf (fuel : Nat) (s : St α m n) (hs : refSnf e fuel A = .ok s) : Inv φ A s :=
+  inv_refLoop L fuel 0 _ s hs (inv_init L.toLawful)
+
+
+/-! ### code model of `SnfCalc` (debug build: the `debug_assert!`s are compiled in) -/
+
+theorem inv_eliminateColStep (i : Fin m) (j : Fin n) (sm sm' : St α m n × Bool) (i1 : Fin m)
+    (hf : eliminateColStep e true i j sm i1 = .ok sm') (hsm : Inv φ A sm.1) : Inv φ A sm'.1 := by
+  unfold eliminateColStep at hf
+  simp only at hf
+  split at hf
+  · injection hf with hf; subst hf; exact hsm
+  · rename_i hc
+    simp only [Bool.or_eq_true, decide_eq_true_eq, not_or] at hc
+    split at hf
+    · rename_i s' h1
+      injection hf with hf; subst hf
+      exact inv_sLeft_dbg L.toLawful sm.1 s' _ _ _ _ i i1 hc.1 h1 hsm
+    · cases hf
+    · cases hf
+
+theorem inv_eliminateRowStep (i : Fin m) (j : Fin n) (sm sm' : St α m n × Bool) (j1 : Fin n)
+    (hf : eliminateRowStep e true i j sm j1 = .ok sm') (hsm : Inv φ A sm.1) : Inv φ A sm'.1 := by
+  unfold eliminateRowStep at hf
+  simp only at hf
+  split at hf
+  · injection hf with hf; subst hf; exact hsm
+  · rename_i hc
+    simp only [Bool.or_eq_true, decide_eq_true_eq, not_or] at hc
+    split at hf
+    · rename_i s' h1
+      injection hf with hf; subst hf
+      exact inv_sRight_dbg L.toLawful sm.1 s' _ _ _ _ j j1 hc.1 h1 hsm
+    · cases hf
+    · cases hf
+
+theorem inv_eliminateCol (s : St α m n) (i : Fin m) (j : Fin n) (r : St α m n × Bool)
+    (hs : eliminateCol e true s i j = .ok r) (h : Inv φ A s) : Inv φ A r.1 := by
+  unfold eliminateCol at hs
+  have := foldlM_inv (σ := St α m n × Bool) (β := Fin m) (fun sm => Inv φ A sm.1) (eliminateColStep e true i j)
+    (fun sm i1 sm' hf hsm => inv_eliminateColStep L i j sm sm' i1 hf hsm)
+  exact this (List.finRange m) (s, false) r hs h
+
+theorem inv_eliminateRow (s : St α m n) (i : Fin m) (j : Fin n) (r : St α m n × Bool)
+    (hs : eliminateRow e true s i j = .ok r) (h : Inv φ A s) : Inv φ A r.1 := by
+  unfold eliminateRow at hs
+  have := foldlM_inv (σ := St α m n × Bool) (β := Fin n) (fun sm => Inv φ A sm.1) (eliminateRowStep e true i j)
+    (fun sm j1 sm' hf hsm => inv_eliminateRowStep L i j sm sm' j1 hf hsm)
+  exact this (List.finRange n) (s, false) r hs h
+
+theorem inv_eliminateAt (i : Fin m) (j : Fin n) : ∀ (fuel : Nat) (s s' : St α m n),
+    eliminateAt e true i j fuel s = .ok s' → Inv φ A s → Inv φ A s' := by
+  intro fuel
+  induction fuel with
+  | zero => intro s s' hs; simp [eliminateAt] at hs
+  | succ fuel ih =>
+    intro s s' hs h
+    rw [eliminateAt] at hs
+    split at hs
+    · split at hs
+      · rename_i r1 h1
+        split at hs
+        · rename_i r2 h2
+          split at hs
+          · cases hs
+          · exact ih r2.1 s' hs (inv_eliminateRow L r1.1 i j _ h2 (inv_eliminateCol L s i j _ h1 h))
+        · cases hs
+        · cases hs
+      · cases hs
+      · cases hs
+    · injection hs with hs; subst hs; exact h
+
+omit L in
+theorem inv_stepPrep (s : St α m n) (i ip : Fin m) (ic j : Fin n) (h : Inv φ A s) :
+    Inv φ A (stepPrep s i ip ic j) := by
+  unfold stepPrep
+  have h1 : Inv φ A (if ip.1 > i.1 then sSwapRows s i ip else s) := by
+    split
+    · rename_i hgt; exact inv_sSwapRows s i ip (fun h' => by rw [h'] at hgt; exact Nat.lt_irrefl _ hgt) h
+    · exact h
+  simp only
+  split
+  · rename_i hgt; exact inv_sSwapCols _ ic j (fun h' => by rw [h'] at hgt; exact Nat.lt_irrefl _ hgt) h1
+  · exact h1
+
+theorem inv_eliminateStep (fuel : Nat) (s : St α m n) (i : Fin m) (j : Fin n) (hi : i.1 < n) (s' : St α m n)
+    (hs : eliminateStep e true fuel s i j hi = .ok (some s')) (h : Inv φ A s) : Inv φ A s' := by
+  unfold eliminateStep at hs
+  split at hs
+  · cases hs
+  · rename_i ip _
+    have h1 := inv_stepPrep (φ := φ) (A := A) s i ip ⟨i.1, hi⟩ j h
+    generalize stepPrep s i ip ⟨i.1, hi⟩ j = s1 at hs h1
+    simp only at hs
+    split at hs
+    · rename_i s2 h2
+      have h2' : Inv φ A s2 := by
+        split at h2
+        · exact inv_sMulCol L s1 s2 _ _ h2 h1
+        · injection h2 with h2; subst h2; exact h1
+      split at hs
+      · cases hs
+      · split at hs
+        · rename_i s3 h3
+          injection hs with hs; injection hs with hs; subst hs
+          exact inv_eliminateAt L i ⟨i.1, hi⟩ fuel s2 s3 h3 h2'
+        · cases hs
+        · cases hs
+    · cases hs
+    · cases hs
+
+theorem inv_eliminateAllStep (fuel : Nat) (si si' : St α m n × Nat) (j : Fin n)
+    (hf : eliminateAllStep e true fuel si j = .ok si') (h : Inv φ A si.1) : Inv φ A si'.1 := by
+  unfold eliminateAllStep at hf
+  split at hf
+  · split at hf
+    · injection hf with hf; subst hf; exact h
+    · rename_i s' h1
+      injection hf with hf; subst hf
+      exact inv_eliminateStep L fuel si.1 _ j _ s' h1 h
+    · cases hf
+    · cases hf
+  · injection hf with hf; subst hf; exact h
+
+theorem inv_eliminateAll (fuel : Nat) (s s' : St α m n) (hs : eliminateAll e true fuel s = .ok s')
+    (h : Inv φ A s) : Inv φ A s' := by
+  unfold eliminateAll at hs
+  split at hs
+  · rename_i si h1
+    injection hs with hs; subst hs
+    have := foldlM_inv (σ := St α m n × Nat) (β := Fin n) (fun si => Inv φ A si.1) (eliminateAllStep e true fuel)
+      (fun si j si' hf hsi => inv_eliminateAllStep L fuel si si' j hf hsi)
+    exact this (List.finRange n) (s, 0) si h1 h
+  · cases hs
+  · cases hs
+
+theorem inv_diagNormalizeStep (s : St α m n) (i : Nat) (hm : i + 1 < m) (hn : i + 1 < n) (r : St α m n × Bool)
+    (hs : diagNormalizeStep e true s i hm hn = .ok r) (h : Inv φ A s) : Inv φ A r.1 := by
+  unfold diagNormalizeStep at hs
+  simp only at hs
+  have hne_m : (⟨i, Nat.lt_of_succ_lt hm⟩ : Fin m) ≠ ⟨i + 1, hm⟩ := by
+    intro h'; have := congrArg Fin.val h'; simp at this
+  have hne_n : (⟨i, Nat.lt_of_succ_lt hn⟩ : Fin n) ≠ ⟨i + 1, hn⟩ := by
+    intro h'; have := congrArg Fin.val h'; simp at this
+  split at hs
+  · cases hs
+  · split at hs
+    · injection hs with hs; subst hs; exact h
+    · split at hs
+      · injection hs with hs; subst hs
+        exact inv_sSwapCols _ _ _ hne_n (inv_sSwapRows s _ _ hne_m h)
+      · split at hs
+        · rename_i s1 h1
+          split at hs
+          · rename_i s2 h2
+            injection hs with hs; subst hs
+            exact inv_sRight_dbg L.toLawful s1 s2 _ _ _ _ _ _ hne_n h2
+              (inv_sLeft_dbg L.toLawful s s1 _ _ _ _ _ _ hne_m h1 h)
+          · cases hs
+          · cases hs
+        · cases hs
+        · cases hs
+
+theorem inv_diagPass (r : Nat) : ∀ (cnt i : Nat) (s : St α m n) (r' : St α m n × Bool),
+    diagPass e true r cnt i s = .ok r' → Inv φ A s → Inv φ A r'.1 := by
+  intro cnt
+  induction cnt with
+  | zero => intro i s r' hs h; rw [diagPass] at hs; injection hs with hs; subst hs; exact h
+  | succ cnt ih =>
+    intro i s r' hs h
+    rw [diagPass] at hs
+    split at hs
+    · split at hs
+      · rename_i r1 h1
+        have h1' := inv_diagNormalizeStep L s i _ _ r1 h1 h
+        split at hs
+        · exact ih _ _ r' hs h1'
+        · injection hs with hs; subst hs; exact h1'
+      · cases hs
+      · cases hs
+    · injection hs with hs; subst hs; exact h
+
+theorem inv_diagOuter (r : Nat) : ∀ (fuel : Nat) (s s' : St α m n),
+    diagOuter e true r fuel s = .ok s' → Inv φ A s → Inv φ A s' := by
+  intro fuel
+  induction fuel with
+  | zero => intro s s' hs; simp [diagOuter] at hs
+  | succ fuel ih =>
+    intro s s' hs h
+    rw [diagOuter] at hs
+    split at hs
+    · rename_i r1 h1
+      have h1' := inv_diagPass L r r 0 s r1 h1 h
+      split at hs
+      · injection hs with hs; subst hs; exact h1'
+      · exact ih _ s' hs h1'
+    · cases hs
+    · cases hs
+
+theorem inv_normalizeStep (s s' : St α m n) (i : Nat) (hs : normalizeStep e s i = .ok s') (h : Inv φ A s) :
+    Inv φ A s' := by
+  unfold normalizeStep at hs
+  split at hs
+  · simp only at hs
+    split at hs
+    · exact inv_sMulRow L s s' _ _ hs h
+    · injection hs with hs; subst hs; exact h
+  · injection hs with hs; subst hs; exact h
+
+theorem inv_diagNormalize (fuel : Nat) (s s' : St α m n) (hs : diagNormalize e true fuel s = .ok s')
+    (h : Inv φ A s) : Inv φ A s' := by
+  unfold diagNormalize at hs
+  split at hs
+  · cases hs
+  · split at hs
+    · injection hs with hs; subst hs; exact h
+    · split at hs
+      · rename_i s1 h1
+        have := foldlM_inv (σ := St α m n) (β := Nat) (Inv φ A) (normalizeStep e)
+          (fun s i s' hf hs => inv_normalizeStep L s s' i hf hs)
+        exact this _ s1 s' hs (inv_diagOuter L _ fuel s s1 h1 h)
+      · cases hs
+      · cases hs
+
+theorem inv_snfCalc (pre : St α m n → Res (St α m n))
+    (hpre : ∀ s s', pre s = .ok s' → Inv φ A s → Inv φ A s') (fuel : Nat) (s : St α m n)
+    (hs : snfCalc e true pre fuel A = .ok s) : Inv φ A s := by
+  unfold snfCalc at hs
+  split at hs
+  · injection hs with hs; subst hs; exact inv_init L.toLawful
+  · split at hs
+    · rename_i s1 h1
+      split at hs
+      · rename_i s2 h2
+        exact inv_diagNormalize L fuel s2 s hs
+          (inv_eliminateAll L fuel s1 s2 h2 (hpre _ s1 h1 (inv_init L.toLawful)))
+      · cases hs
+      · cases hs
+    · cases hs
+    · cases hs
+
+end flow
+
+/-! ### instances -/
+
+theorem lawfulE_int : LawfulE intOps (id : Int → Int) where
+  toLawful := lawful_int
+  inv_mul u v h := by
+    simp only [intOps] at h
+    split at h
+    · rename_i hc
+      injection h with h; subst h
+      simp only [Bool.or_eq_true, beq_iff_eq] at hc
+      rcases hc with rfl | rfl <;> rfl
+    · cases h
+
+theorem lawfulE_rat : LawfulE ratOps (id : Rat → Rat) where
+  toLawful := lawful_rat
+  inv_mul u v h := by
+    simp only [ratOps] at h
+    split at h
+    · cases h
+    · rename_i hc
+      injection h with h; subst h
+      simp only [beq_iff_eq] at hc
+      exact mul_inv_cancel₀ hc
+
+theorem lawfulE_fp (p : Nat) [NeZero p] : LawfulE (fpOps p) (fun a : Nat => (a : ZMod p)) where
+  toLawful := lawful_fp p
+  inv_mul u v h := by
+    simp only [fpOps] at h
+    split at h
+    · cases h
+    · split at h
+      · rename_i hc
+        injection h with h; subst h
+        simp only [beq_iff_eq] at hc
+        have : ((u * fpInv p (u % p) % p : Nat) : ZMod p) = ((1 : Nat) : ZMod p) := by rw [hc]
+        simpa using this
+      · cases h
+
 end Yuiv.C09
